@@ -1,7 +1,19 @@
 import StunVerif.Props.C20
+import StunVerif.Props.SrcFnAgent
 #print axioms StunVerif.C20.step_shift
 #print axioms StunVerif.C20.shift_equivariant
 #print axioms StunVerif.C20.independent_agents
 #print axioms StunVerif.C20.no_leak
 #print axioms StunVerif.C20.stored_instants_are_inputs
 #print axioms StunVerif.C20.src_no_ambient
+#print axioms StunVerif.SrcFnAgent.src_reqPoll
+#print axioms StunVerif.SrcFnAgent.src_validatedPeer
+#print axioms StunVerif.SrcFnAgent.src_takeOutstanding
+#print axioms StunVerif.SrcFnAgent.remove_of_lookup_none
+#print axioms StunVerif.SrcFnAgent.src_handleStun
+#print axioms StunVerif.SrcFnAgent.src_send_request
+#print axioms StunVerif.SrcFnAgent.src_send_other
+#print axioms StunVerif.SrcFnAgent.src_cancel
+#print axioms StunVerif.SrcFnAgent.src_cancelRetransmissions
+#print axioms StunVerif.SrcFnAgent.foldl_add_eq_sum
+#print axioms StunVerif.SrcFnAgent.src_configureTimeout
